@@ -68,6 +68,24 @@ def matrix_cases():
             ]
             for sel in forms:
                 out.append({'tables': [table], 'sel': sel, 'text': bql.statement(sel), 'matrix': True})
+        # grouping without any aggregate: one row per group, whether or not the keys are selected
+        R = ['col', 'rid']
+        forms = [
+            bql.select([(K, None)], ('table', 'm'), group_by=[K]),
+            bql.select([(K, None)], ('table', 'm'), group_by=[K, ['isnull', X]]),
+            bql.select([(K, None)], ('table', 'm'), group_by=[['isnull', X], 1]),
+            bql.select([(['isnull', X], 'n')], ('table', 'm'), group_by=[['col', 'n'], K]),
+            bql.select([(K, None), (['isnull', X], 'n')], ('table', 'm'), group_by=[1, 2, ['mod', R, ['const', 'int', 2]]]),
+            bql.select([(['fn', 'upper', [K]], 'u')], ('table', 'm'), group_by=[['col', 'u'], ['mod', R, ['const', 'int', 3]]]),
+            bql.select([(K, None)], ('table', 'm'), group_by=[K, R], having=None),
+            bql.select([(K, None)], ('table', 'm'), where=['isnotnull', X], group_by=[K, ['mod', R, ['const', 'int', 2]]]),
+        ]
+        if t in gen.KEYTYPES:
+            forms += [bql.select([(K, None)], ('table', 'm'), group_by=[K, X]),
+                      bql.select([(X, None)], ('table', 'm'), group_by=[X, K]),
+                      bql.select([(X, 'k')], ('table', 'm'), group_by=[['col', 'k'], ['mod', R, ['const', 'int', 2]]])]
+        for sel in forms:
+            out.append({'tables': [table], 'sel': sel, 'text': bql.statement(sel), 'matrix': True})
     return out
 
 
@@ -264,6 +282,38 @@ def ledger_case(draw):
     return {'text': ledgergen.render(desc), 'table': name, 'sel': harness.force_aliases(sel), 'via_ast': True}
 
 
+def inventory_sums(conn, entries):
+    """sum() over amount- and position-typed arguments folds from the empty inventory: a group whose values are all
+    NULL (postings without a price) sums to the empty inventory, and the group sums add up to the total."""
+    from beancount.core import data, inventory, position
+    fails = []
+    want, order = {}, []
+    for e in entries:
+        if isinstance(e, data.Transaction):
+            for p in e.postings:
+                if p.account not in want:
+                    want[p.account] = [inventory.Inventory(), inventory.Inventory(), 0, 0]
+                    order.append(p.account)
+                w = want[p.account]
+                if p.price is not None:
+                    w[0].add_amount(p.price)
+                    w[2] += 1
+                w[1].add_position(position.Position(p.units, p.cost))
+                w[3] += 1
+    r = harness.engine(conn, harness.parsed('SELECT account, sum(price) AS sp, sum(position) AS s, count(price) AS np, count(*) AS n '
+                                            'FROM #postings GROUP BY account'))
+    if r[0] != 'ok':
+        return [('inventory-sums:raises', repr(r[1]))]
+    expect = [(a, *want[a]) for a in order]
+    if r[2] != expect:
+        bad = [(g, w) for g, w in zip(r[2], expect) if g != w][:2]
+        fails.append(('inventory-sums', f'sum(price)/sum(position) per account: got vs want {bad!r} ({len(r[2])} vs {len(expect)} rows)'))
+    t = harness.engine(conn, harness.parsed('SELECT sum(price) AS sp, sum(position) AS s FROM #postings WHERE price IS NULL'))
+    if t[0] == 'ok' and t[2] and not (isinstance(t[2][0][0], inventory.Inventory) and t[2][0][0].is_empty()):
+        fails.append(('inventory-sums', f'sum(price) over postings without price is {t[2][0][0]!r}, not the empty inventory'))
+    return fails
+
+
 def prop_ledger(sh, case):
     from vlib import ledgermodel, ledgers
     entries, errors, options = ledgers.load(case['text'])
@@ -275,6 +325,7 @@ def prop_ledger(sh, case):
         sh.count('oracle_undefined')
         sh.record(None, False)
         return fails
+    fails += inventory_sums(conn, entries)
     nrows = len(tabs[case['table']]['rows'])
     nontrivial = nrows >= 3 and len(info.get('want', ())) >= 2
     sh.count('ledger:' + case['table'])
